@@ -70,8 +70,8 @@ def valid_op(rng, w):
         liq = rng.choice((None, int(w.market.positions[k].liquidity) // 2, int(w.market.positions[k].liquidity) // 3, 0))
         return {"op": "remove", "lower": k.lower_tick, "upper": k.upper_tick, "liq": liq, "collect": rng.random() < 0.5, "sqrt": None, "remove_dry": rng.random() < 0.8}
     if r < 0.55:
-        return {"op": "collect", "lower": k.lower_tick, "upper": k.upper_tick, "max0": rng.choice((None, Decimal("0.001"))), "max1": rng.choice((None, Decimal("0.001"))),
-                "remove_dry": True, "to_user": True}
+        c0, c1, _ = U.collect_caps(rng, w.market.positions[k])
+        return {"op": "collect", "lower": k.lower_tick, "upper": k.upper_tick, "max0": c0, "max1": c1, "remove_dry": True, "to_user": True}
     if r < 0.65:
         return {"op": "sell", "amount": bb * Decimal("0.1"), "price": None}
     if r < 0.75:
